@@ -27,3 +27,21 @@ Definition bitB (B : list bool) (p : N) : bool := match getb B p with Some x => 
 (* the transformed sequence seen by OneIter<T> / SelectSupport<T> *)
 Definition t_bits (t : transf) (B : list bool) : list bool :=
   match t with Identity => B | Complement => map negb B end.
+
+(* Interface used by the structures that EMBED plain bitvectors (sparse vector, wavelet matrix):
+   b stores B and answers every query of the plain bitvector exactly. Established by the C01 theorems
+   for `bv_enable_all` (and for loaded vectors whose supports are rebuilt); the composite proofs take it
+   as their only assumption about the embedded vector. *)
+Definition bv_queries_ok (sp : selpath) (m : mode) (b : bitvec) (B : list bool) : Prop :=
+  bv_repr b B /\
+  (forall i, i < bv_len b -> exists x, bv_get b i = Ok x /\ getb B i = Some x) /\
+  (forall i, i < 2 ^ 64 -> bv_rank_q b i = Ok (rank1 B i)) /\
+  (forall r, r < 2 ^ 64 -> bv_select_t sp m Identity b r = Ok (select1 B r)) /\
+  (forall r, r < 2 ^ 64 -> bv_select_t sp m Complement b r = Ok (select0 B r)).
+
+(* weaker interface of the Elias-Fano high part: only select and select_zero are enabled there *)
+Definition bv_select_ok (sp : selpath) (m : mode) (b : bitvec) (B : list bool) : Prop :=
+  bv_repr b B /\
+  (forall i, i < bv_len b -> exists x, bv_get b i = Ok x /\ getb B i = Some x) /\
+  (forall r, r < 2 ^ 64 -> bv_select_t sp m Identity b r = Ok (select1 B r)) /\
+  (forall r, r < 2 ^ 64 -> bv_select_t sp m Complement b r = Ok (select0 B r)).
